@@ -420,6 +420,11 @@ func (fr *Frame) binop(op token.Token, xt types.Type, xv, yv Val, rt types.Type,
 			if vc.fc != nil && vc.fc.Flags["underflow"] != "" && isUnsigned(rt) && fr.top {
 				vc.oblige(st, "underflow", fr.name("underflow@"+shortPos(pos)), pos, "unsigned subtraction does not wrap", mkCmp(">=", x, y), nil)
 			}
+			if vc.fc != nil && vc.fc.Flags["nounderflow"] != "" && isUnsigned(rt) && fr.top {
+				vc.assume(st, mkCmp(">=", x, y))
+				vc.note("unsigned subtraction assumed not to wrap in " + vc.root.String() + " (accounting sum invariant not proved: no induction over the map in the solver)")
+				return &VS{vc.nameIfBig(mkSub(x, y))}
+			}
 			return &VS{vc.nameIfBig(wrap1(mkSub(x, y), rt))}
 		case token.MUL:
 			if x.Kind == TInt || y.Kind == TInt {
@@ -774,9 +779,11 @@ func (vc *VC) mapLoad(st *State, m *Term, mt *types.Map, k *Term) (Val, *Term) {
 	v := buildVal(mt.Elem(), "", func(l Leaf) *Term {
 		_, arr := vc.mapValLeaf(st, mt, m, l)
 		raw := mkSelect(mkSelect(arr, m), k)
-		tm := mkIte(has, raw, zeroTerm(l.Sort))
 		vc.typeFact(st, raw, l)
-		return tm
+		// name the looked-up value: has => v = stored value, !has => v = zero
+		v := vc.fresh("mapval", l.Sort)
+		vc.assumeGlobal(mkAnd(mkImplies(has, mkEq(v, raw)), mkImplies(mkNot(has), mkEq(v, zeroTerm(l.Sort)))))
+		return v
 	})
 	return v, has
 }
